@@ -13,10 +13,7 @@ const preludeCommon = `
 (declare-datatypes ((Ref 0)) (((null) (obj (oid Int)) (elem (ebase Int) (eidx Int)) (fld (fbase Ref) (fidx Int)) (glob (gid Int)))))
 (declare-datatypes ((Slice 0)) (((mkslice (sbase Int) (soff Int) (slen Int) (scap Int)))))
 (declare-sort Iface 0)
-(declare-sort Bytes 0)
-(declare-fun u_blen (Bytes) Int)
-(declare-fun bsub (Bytes Int Int) Bytes)
-(assert (forall ((b Bytes) (o Int) (l Int)) (! (=> (>= l 0) (= (u_blen (bsub b o l)) l)) :pattern ((bsub b o l)))))
+PRELUDE_BYTES
 (declare-const inil Iface)
 (declare-fun itag (Iface) Int)
 (assert (= (itag inil) 0))
@@ -47,6 +44,22 @@ const preludeCommon = `
 (declare-fun eref (Slice Int) Ref)
 (assert (forall ((s Slice) (i Int)) (! (= (eref s i) (elem (sbase s) (+ (soff s) i))) :pattern ((eref s i)))))
 (define-fun validslice ((s Slice)) Bool (and (<= (scap s) 281474976710656) (>= (slen s) 0) (>= (soff s) 0) (>= (scap s) (slen s)) (>= (sbase s) 0) (=> (= (sbase s) 0) (= s nilslice))))
+`
+
+const preludeBytesAbstract = `
+(declare-sort Bytes 0)
+(declare-fun u_blen (Bytes) Int)
+(declare-fun bsub (Bytes Int Int) Bytes)
+(assert (forall ((b Bytes) (o Int) (l Int)) (! (=> (>= l 0) (= (u_blen (bsub b o l)) l)) :pattern ((bsub b o l)))))
+`
+
+// in string-theory mode byte strings are SMT strings as well
+const preludeBytesTheory = `
+(define-sort Bytes () String)
+(define-fun u_blen ((b Bytes)) Int (str.len b))
+(define-fun bsub ((b Bytes) (o Int) (l Int)) Bytes (str.substr b o l))
+(define-fun b2s ((b Bytes)) String b)
+(define-fun s2b ((s String)) Bytes s)
 `
 
 const preludeStrAbstract = `
@@ -92,9 +105,19 @@ type smtCtx struct {
 }
 
 func newSmtCtx(strMode bool) *smtCtx {
+	c := newSmtCtx0(strMode)
+	if strMode {
+		c.ufuncs["b2s"] = "(Bytes) Str"
+		c.ufuncs["s2b"] = "(Str) Bytes"
+	}
+	return c
+}
+
+func newSmtCtx0(strMode bool) *smtCtx {
 	return &smtCtx{declared: map[string]bool{}, svSort: map[string]string{}, strLits: map[string]string{},
 		strMode: strMode, typeTags: map[string]int{}, boxFns: map[string]bool{}, sorts: map[string]bool{"Bytes": true}, globals: map[string]int{},
 		ufuncs: map[string]string{"u_blen": "(Bytes) Int", "bsub": "(Bytes Int Int) Bytes"}}
+
 }
 
 func sanitize(s string) string {
@@ -365,4 +388,11 @@ func implies(a, b string) string {
 		return b
 	}
 	return "(=> " + a + " " + b + ")"
+}
+
+func preludeFor(strMode bool) string {
+	if strMode {
+		return strings.Replace(preludeCommon, "PRELUDE_BYTES", preludeStrTheory+preludeBytesTheory, 1)
+	}
+	return strings.Replace(preludeCommon, "PRELUDE_BYTES", preludeBytesAbstract, 1)
 }
